@@ -178,7 +178,7 @@ func marshalSorted(m map[string]string) []byte {
 
 // tameAlloc keeps `readHeader`'s `make([]byte, size)` small where a header block starts: at the start of
 // every frame of the stream (sequential split by the size prefixes) a version byte 0 followed by a 4-byte
-// header size above 64 MiB gets the top byte of that size cleared. The stream path allocates the declared
+// header size above 1 MiB is cut down below 1 MiB. The stream path allocates the declared
 // header size before reading it (up to 2 GiB for 5 bytes received: sampled and reported in the evidence by
 // c05pure, not a crash); here thousands of streams are run per check.
 func tameAlloc(s []byte) []byte {
@@ -195,8 +195,38 @@ func tameAlloc(s []byte) []byte {
 
 // tameHead does the same for one byte string that may be read as a header block.
 func tameHead(g []byte) []byte {
-	if len(g) >= 2 && g[0] == 0 && g[1] >= 0x04 && g[1] < 0x80 {
+	if len(g) >= 3 && g[0] == 0 && g[1] < 0x80 && (g[1] != 0 || g[2] >= 0x10) { // 0 < size, size >= 1 MiB
 		g[1] = 0
+		g[2] &= 0x0f
 	}
 	return g
+}
+
+// smallHeaders: 0..4 pairs of short strings (now and then one of 300 bytes): the streams of these suites
+// hold several frames and every case is one driver line.
+func smallHeaders(r *Rng) map[string]string {
+	n := r.Pick(0, 0, 1, 1, 2, 3, 4)
+	m := make(map[string]string, n+1)
+	str := func() string {
+		if r.Chance(2) {
+			return string(r.Bytes(300))
+		}
+		k := r.Intn(9)
+		if r.Chance(25) {
+			return string(r.Bytes(k)) // arbitrary bytes, incl. 0x00 and invalid UTF-8
+		}
+		b := make([]byte, k)
+		for i := range b {
+			b[i] = "abcdefghijklmnopqrstuvwxyz_-0123456789"[r.Intn(38)]
+		}
+		return string(b)
+	}
+	for len(m) < n {
+		m[str()] = str()
+	}
+	return m
+}
+
+func smallPayload(r *Rng) []byte {
+	return r.Bytes(r.Pick(0, 1, 3, 4, 5, 12, 30, 64))
 }
